@@ -16,8 +16,101 @@ import (
 // unknown extension properties. These are the clean messages of a peer that
 // the faulty wire then damages (C04) and that tasks decode privately (C12).
 func PeerDoc(t *core.Tape) []byte {
-	b, _ := json.Marshal(peerValue(t, 0))
+	v := peerValue(t, 0)
+	// "mistyped" members: in a third of the documents one to three members (at any depth) are given
+	// in another shape that peers do use or that the vocabulary allows: a string as a one-element
+	// array and back, an embedded object by its id, an object inside an array, null, a number as a
+	// string, a boolean as a string
+	if t.Bool(1, 3) {
+		for i, n := 0, 1+t.Draw(3); i < n; i++ {
+			perturbShape(t, v)
+		}
+	}
+	b, _ := json.Marshal(v)
 	return b
+}
+
+// perturbShape walks to a random member of the document and changes its shape.
+func perturbShape(t *core.Tape, node map[string]any) {
+	for depth := 0; depth < 6; depth++ {
+		keys := make([]string, 0, len(node))
+		for k := range node {
+			if k != "@context" {
+				keys = append(keys, k)
+			}
+		}
+		if len(keys) == 0 {
+			return
+		}
+		sortStrings(keys)
+		k := keys[t.Draw(len(keys))]
+		v := node[k]
+		// descend into nested objects half of the time
+		if m, ok := v.(map[string]any); ok && t.Bool(1, 2) {
+			node = m
+			continue
+		}
+		if arr, ok := v.([]any); ok && len(arr) > 0 && t.Bool(1, 2) {
+			if m, ok := arr[t.Draw(len(arr))].(map[string]any); ok {
+				node = m
+				continue
+			}
+		}
+		switch x := v.(type) {
+		case string:
+			switch t.Draw(3) {
+			case 0:
+				node[k] = []any{x}
+			case 1:
+				node[k] = nil
+			default:
+				node[k] = map[string]any{"id": x}
+			}
+		case map[string]any:
+			switch t.Draw(4) {
+			case 0:
+				if id, ok := x["id"].(string); ok {
+					node[k] = id
+				} else {
+					node[k] = "https://peer.example/linked/" + k
+				}
+			case 1:
+				node[k] = []any{x}
+			case 2:
+				node[k] = nil
+			default:
+				node[k] = []any{}
+			}
+		case []any:
+			switch t.Draw(3) {
+			case 0:
+				if len(x) > 0 {
+					node[k] = x[0]
+				} else {
+					node[k] = nil
+				}
+			case 1:
+				node[k] = map[string]any{"type": "Collection", "items": x}
+			default:
+				node[k] = "https://peer.example/linked/" + k
+			}
+		case float64, int:
+			node[k] = fmt.Sprint(x)
+		case bool:
+			node[k] = fmt.Sprint(x)
+		case nil:
+			node[k] = map[string]any{}
+		}
+		return
+	}
+}
+
+func sortStrings(a []string) {
+	for i := 1; i < len(a); i++ {
+		for j := i; j > 0 && a[j] < a[j-1]; j-- {
+			a[j], a[j-1] = a[j-1], a[j]
+		}
+	}
 }
 
 var peerShort = []string{"Hi", "a", "ok", "é", "-", "x y", "<p>longer <b>html</b> text</p>", "12", "", "line\nbreak", `quote"d`, `back\slash`}
